@@ -83,3 +83,28 @@ pub assume_specification[<i64 as core::str::FromStr>::from_str](s: &str) -> (r: 
 pub assume_specification[<f64 as core::str::FromStr>::from_str](s: &str) -> (r: core::result::Result<f64, core::num::ParseFloatError>);
 pub assume_specification<T, E, U, F: FnOnce(T) -> U>[core::result::Result::<T, E>::map_or](o: core::result::Result<T, E>, d: U, f: F) -> (r: U)
     ensures o.is_err() ==> r == d, o matches Ok(v) ==> f.ensures((v,), r);
+// further rust_decimal / std API (so that rewrites of the handlers and accessors stay within the verifier's reach)
+pub assume_specification[Decimal::mantissa](a: &Decimal) -> (r: i128) ensures r as int == dec_mant(*a);
+pub assume_specification[Decimal::scale](a: &Decimal) -> (r: u32) ensures r as nat == dec_scale(*a);
+pub assume_specification[Decimal::new](num: i64, scale: u32) -> (r: Decimal) requires scale <= 28 ensures dec_mant(r) == num as int, dec_scale(r) == scale as nat;
+pub uninterp spec fn dec_trunc(d: Decimal) -> int;       // integer part, truncated toward zero
+pub broadcast axiom fn axiom_dec_trunc(d: Decimal, n: int) ensures #[trigger] is_int(d, n) ==> dec_trunc(d) == n;
+#[verifier::external_trait_specification]
+pub trait ExToPrimitive {
+    type ExternalTraitSpecificationFor: rust_decimal::prelude::ToPrimitive;
+    fn to_i64(&self) -> Option<i64>;
+    fn to_u64(&self) -> Option<u64>;
+    fn to_i128(&self) -> Option<i128>;
+    fn to_u128(&self) -> Option<u128>;
+    fn to_f64(&self) -> Option<f64>;
+}
+pub assume_specification[<Decimal as rust_decimal::prelude::ToPrimitive>::to_i64](a: &Decimal) -> (r: Option<i64>)
+    ensures r == (if i64::MIN <= dec_trunc(*a) <= i64::MAX { Some(dec_trunc(*a) as i64) } else { None::<i64> });
+pub assume_specification[<Decimal as rust_decimal::prelude::ToPrimitive>::to_u64](a: &Decimal) -> (r: Option<u64>);   // (a negative sign with integer part 0 yields None: left unspecified)
+pub assume_specification[<Decimal as rust_decimal::prelude::ToPrimitive>::to_i128](a: &Decimal) -> (r: Option<i128>) ensures r == Some(dec_trunc(*a) as i128);
+pub assume_specification[<Decimal as rust_decimal::prelude::ToPrimitive>::to_u128](a: &Decimal) -> (r: Option<u128>);
+pub assume_specification[<Decimal as rust_decimal::prelude::ToPrimitive>::to_f64](a: &Decimal) -> (r: Option<f64>);
+pub assume_specification[i64::checked_shl](a: i64, b: u32) -> (r: Option<i64>) ensures r == (if b < 64 { Some(a << b) } else { None::<i64> });
+pub assume_specification[i64::checked_shr](a: i64, b: u32) -> (r: Option<i64>) ensures r == (if b < 64 { Some(a >> b) } else { None::<i64> });
+pub assume_specification[u64::checked_shl](a: u64, b: u32) -> (r: Option<u64>) ensures r == (if b < 64 { Some(a << b) } else { None::<u64> });
+pub assume_specification[u64::checked_shr](a: u64, b: u32) -> (r: Option<u64>) ensures r == (if b < 64 { Some(a >> b) } else { None::<u64> });
